@@ -85,8 +85,8 @@ Lemma restore1_arr_step n d path R R' items pre it post x' ps :
   (forall g, g <> d_digest d -> R' g = R g) ->
   (forall i, arr_body show_nat (restore1 n d) d path i (vitem R it) = Ok (x', ps i, true)) ->
   x' = vitem R' it ->
-  exists ps', walki (arr_body show_nat (restore1 n d) d path) 0 (map (vitem R) items)
-     = Ok (map (vitem R') items, ps', true).
+  walki (arr_body show_nat (restore1 n d) d path) 0 (map (vitem R) items)
+     = Ok (map (vitem R') items, ps (List.length pre), true).
 Proof.
   intros -> Hwf Hok Hnd Hndh Hh Hg HR Hbody ->.
   assert (Hothers : forall y, In y (pre ++ post) ->
@@ -105,12 +105,15 @@ Proof.
         * pose proof (height_vitem R y (Hwf _ Hyin)). pose proof (hmax_in item_h _ _ Hyin). lia.
     - apply vitem_ext. intros g Hgy. apply HR. intros ->. apply Hng. apply hdigs_item_adigs; auto. }
   rewrite !map_app. cbn [map].
-  eexists. erewrite walki_split.
-  - f_equal. f_equal. f_equal. f_equal.
-    + apply map_ext_in. intros y Hy. symmetry. apply Hothers. apply in_or_app. left. assumption.
-    + f_equal. apply map_ext_in. intros y Hy. symmetry. apply Hothers. apply in_or_app. right. assumption.
+  assert (Hpre : map (vitem R) pre = map (vitem R') pre).
+  { apply map_ext_in. intros y Hy. symmetry. apply Hothers. apply in_or_app. left. assumption. }
+  assert (Hpost : map (vitem R) post = map (vitem R') post).
+  { apply map_ext_in. intros y Hy. symmetry. apply Hothers. apply in_or_app. right. assumption. }
+  rewrite (walki_split (arr_body show_nat (restore1 n d) d path) (map (vitem R) pre) (vitem R it) (map (vitem R) post)
+             (vitem R' it) (ps (List.length pre)) true 0).
+  - rewrite Hpre, Hpost. reflexivity.
   - intros j y Hy. apply in_map_iff in Hy as [y0 [<- Hy0]]. apply Hothers. apply in_or_app. left. assumption.
-  - apply Hbody.
+  - rewrite map_length. cbn [Nat.add]. apply Hbody.
   - intros j y Hy. apply in_map_iff in Hy as [y0 [<- Hy0]]. apply Hothers. apply in_or_app. right. assumption.
 Qed.
 
